@@ -805,6 +805,46 @@ def r10(F, R):
     c03.r6(F, R)
 
 
+def r11(F, R):
+    """"every scenario handed to the runner is attempted" seen from `Cucumber::run`: the runner receives exactly the filtered parser
+    stream — no further adaptor that could drop features or scenarios sits between the filter and the runner (= C15.R3)."""
+    from . import c15
+    c15.r3(F, R)
+
+
+WALK_RESTRICT = r"globwalk::GlobWalkerBuilder::(file_type|max_depth|min_depth)$"
+DROPPING = r"Iterator::(filter|take|skip|step_by|take_while|skip_while)$|Itertools::(dedup\w*|unique\w*|take_while_ref|step|while_some)$"
+
+
+def r12(F, R):
+    """The default parser's side of "every scenario runs": walking a features directory, `parser::Basic` restricts the walk to nothing but
+    the `*.feature` pattern (no file-type / depth limits: a symlinked or deeply nested feature file silently never runs), and every
+    entry of the walk is parsed — no dropping adaptor (filter / take / skip / dedup ..) in the parser's pipelines.  (Beyond the runner,
+    which is what the statement names: it is the other place where scenarios get lost without any event.)"""
+    pb = [b for b in F.crate_bodies() if b.name.startswith("<parser::basic::Basic as parser::Parser") or b.name.startswith("parser::basic::Basic::")]
+    if not pb:
+        raise Unverifiable("parser::Basic::parse not found")
+    builders = [(b, st, t) for b in pb for st, t in b.calls(lambda t: callee_is(t, r"globwalk::GlobWalkerBuilder::\w+$"))]
+    if not any(callee_is(t, r"GlobWalkerBuilder::(new|from_patterns)$") for _, _, t in builders):
+        raise Unverifiable("parser::Basic no longer builds its directory walk with GlobWalkerBuilder")
+    bad = [(b, st, t) for b, st, t in builders if callee_is(t, WALK_RESTRICT)]
+    for b, st, t in bad:
+        R.violation("feature-walk/unrestricted", st, f"the walk over the features directory is restricted by `{(callee_path(t) or '').rsplit('::', 1)[-1]}`: feature files "
+                    f"matching `*.feature` (symlinked ones: their type is SYMLINK, links are not followed; or nested deeper) are silently skipped, their scenarios never run")
+    if not bad:
+        R.ok("feature-walk/unrestricted", builders[0][1], f"{len(builders)} builder calls, none restricts file type or depth")
+    drops = [(b, st, t) for b in pb for st, t in b.calls(lambda t: callee_is(t, DROPPING))]
+    for b, st, t in drops:
+        R.violation("feature-walk/every-entry-parsed", st, f"`{re.sub(r'<.*?>', '', callee_path(t) or '').rsplit('::', 2)[-1]}` in parser::Basic's pipeline drops entries: some feature files / features never reach the runner")
+    if not drops:
+        R.ok("feature-walk/every-entry-parsed", pb[0], "no dropping adaptor in parser::Basic's pipelines")
+    # the walked entries that are dropped on purpose: only unreadable directory entries (`filter_map(Result::ok)`)
+    fms = [(b, st, t) for b in pb for st, t in b.calls(lambda t: callee_is(t, r"Iterator::filter_map$"))]
+    okf = all((op_fn(t["args"][1]) or {}).get("path", "").endswith("Result::ok") or re.search(r"Result::<.*>::ok$", (op_fn(t["args"][1]) or {}).get("full", "") or "") for _, _, t in fms)
+    R.check(okf, "feature-walk/only-unreadable-entries-skipped", fms[0][1] if fms else pb[0], "filter_map(Result::ok) only", "a filter_map in parser::Basic drops entries by another criterion than `Result::ok`")
+    R.floor(3)
+
+
 RULES = [
     ("R1", r1, None),
     ("R2", r2, None),
@@ -814,4 +854,4 @@ RULES = [
     ("R6", r6, None),
     ("R7", r7, None),
     ("R8", r8, None),
- ("R9", r9_clone, None), ("R10", r10, None)]
+ ("R9", r9_clone, None), ("R10", r10, None), ("R11", r11, None), ("R12", r12, None)]
